@@ -2,7 +2,7 @@
 
 R1 guarded recursion on call-graph cycles that walk the (possibly cyclic) import/alias graph,
 R2 re-entrancy flag pairing, R3 all-or-nothing store ordering, R4 error discipline (explicit raises,
-KeyError conversion, dereference sites of possibly-alias members), R5 fixpoint loop frame.
+KeyError conversion, dereference sites of possibly-alias members), R5 fixpoint loop frame, R7 alias-graph table, R8 package table.
 """
 
 from __future__ import annotations
@@ -453,6 +453,60 @@ def run(prog: Program, ctx: Ctx) -> None:  # noqa: PLR0912,PLR0915
                    "only the two alias errors are raised, a call that returns leaves the whole chain resolved, a call that raises leaves the alias "
                    "unresolved, a chain that reaches an object resolves, and resolving again changes nothing")
     _graph_table(prog, ctx)
+
+    # ------------------------------------------------------------------ R8 every small package through the loader's post-load pipeline
+    ctx.rule("R8", "for every package of two modules (three in the thorough tier) in which each module defines, imports (from a sibling or from "
+                   "something not loaded) or lacks a name and may star-import a sibling or itself: expand_exports, expand_wildcards and "
+                   "resolve_aliases (implicit or exported-only) return without raising and within budget, a second resolve_aliases changes "
+                   "nothing, no wildcard placeholder survives, every alias afterwards gives a real object or one of the two alias errors, and "
+                   "no imported alias is left resolved with an unresolvable chain")
+    _package_table(prog, ctx)
+
+
+def _pkg_chunk(arg: tuple) -> tuple[int, list[tuple[str, str]]]:
+    from sa.tables.aliasgraphs import PackageTable, fmt_pkg
+
+    overlay, work = arg
+    t = PackageTable(Program(overlay=overlay or None))
+    found: list[tuple[str, str]] = []
+    for mods, g, implicit in work:
+        r = t.run(mods, g, implicit)
+        if r:
+            found.append((r, f"{fmt_pkg(mods, g)}; resolve_aliases(implicit={implicit})"))
+    return len(work), found
+
+
+def _package_table(prog: Program, ctx: Ctx) -> None:
+    import os
+    import re
+    from concurrent.futures import ProcessPoolExecutor
+
+    from sa.tables.aliasgraphs import packages
+
+    thorough = ctx.tier == "thorough"
+    work = [("ab", g, imp) for g in packages("ab") for imp in (True, False)]
+    if thorough:
+        work += [("abc", g, imp) for g in packages("abc") for imp in (True, False)]
+    else:
+        # a slice of the three-module packages: a defines x and then star-imports, b is anything, c has no star import
+        work += [("abc", g, True) for g in packages("abc") if g[0][0] == "attr" and g[0][1] is not None and g[2][1] is None]
+    jobs = min(16 if thorough else 4, os.cpu_count() or 4)
+    with ProcessPoolExecutor(max_workers=jobs) as ex:
+        results = list(ex.map(_pkg_chunk, [(dict(prog.overlay), work[i::jobs]) for i in range(jobs)]))
+    n = sum(r[0] for r in results)
+    ra = prog.function("_griffe.loader.GriffeLoader.resolve_aliases")
+    reported: set[str] = set()
+    for _n, found in results:
+        for problem, pkg in sorted(found, key=lambda x: (len(x[1]), x[1])):
+            cls_key = re.sub(r"pkg\.[abc]\.\S+", "<alias>", problem)[:120]
+            if cls_key in reported:
+                continue
+            reported.add(cls_key)
+            ctx.ob("R8", f"package|{cls_key}", False, f"{problem} [{pkg}]", where(ra))
+    ctx.ob("R8", f"packages|{n} packages", True, f"{n} packages went through expand_exports, expand_wildcards and two rounds of resolve_aliases: all obligations hold", "", nontrivial=True)
+    if not reported:
+        ctx.expect_min("R8", n, 280)
+    ctx.analysed["alias_packages"] = n
 
 
 def _graph_chunk(arg: tuple) -> tuple[int, list[tuple[str, str]]]:
